@@ -41,7 +41,8 @@ Inputs ==
   \cup {[ty |-> t, node |-> I2("u64", v)] : t \in {"u64", "usize"}, v \in {"18446744073709551615", "9223372036854775808", "0"}}
   \cup {[ty |-> "f64", node |-> [k |-> "f64", p |-> p, q |-> q]] : p \in {-3, 0, 1, 5}, q \in {1, 2, 4}}
   \cup {[ty |-> "f32", node |-> [k |-> "f32", p |-> p, q |-> q]] : p \in {-3, 1}, q \in {1, 2}}
-  \cup {[ty |-> t, node |-> [k |-> "str", s |-> s]] : t \in {"String", "&str"}, s \in {<<>>, <<97>>, <<233, 128512>>, <<34, 92>>}}
+  \cup {[ty |-> t, node |-> [k |-> "str", s |-> s]] : t \in {"String", "&str"}, s \in {<<>>, <<97>>, <<233, 128512>>, <<34, 92>>,
+                                                                                      <<49, 50, 51>>, <<116, 114, 117, 101>>, <<110, 117, 108, 108>>, <<91, 49, 44, 50, 93>>, <<34, 113, 34>>, <<123, 125>>}}
   \cup {[ty |-> "bool", node |-> [k |-> "bool", b |-> b]] : b \in BOOLEAN}
   \cup {[ty |-> "()", node |-> [k |-> "unit"]]}
   \cup {[ty |-> t, json |-> j] : t \in ValueTypes,
